@@ -651,6 +651,115 @@ func runC03(r *Run) {
 		}
 	}
 	r.Floor("R8", "StateDB.SetNonce call sites in keeper code", nSet, 2)
+	c03MessageList(r)
+}
+
+// c03MessageList (C03 R11): the EIP-712 typed data is built from the whole message list.
+func c03MessageList(r *Run) {
+	P := r.P
+	r.Rule("R11", "FLOW.typed-data-covers-every-message: in ethereum/eip712 the list of messages taken from the sign doc ([]gjson.Result) is never cut (no slice expression is applied to it), a function that returns such a list returns the JSON array's own element list on every success exit, and a loop over it is left from inside only with an error and cannot reach its next iteration without handing the current element to a function — a message that is executed but not hashed can be appended to a signed transaction by anyone")
+	isMsgList := func(t types.Type) bool {
+		sl, ok := t.Underlying().(*types.Slice)
+		return ok && namedName(sl.Elem()) == "Result" && strings.HasSuffix(namedPkgPath(sl.Elem()), "gjson")
+	}
+	nF, nL := 0, 0
+	for _, fn := range P.Funcs {
+		if !pathHasSuffix(fnPkgPath(fn), "ethereum/eip712") || fn.Synthetic != "" || isTestSupport(P, fn) {
+			continue
+		}
+		eachInstr(fn, func(in ssa.Instruction) {
+			if sl, ok := in.(*ssa.Slice); ok && isMsgList(sl.X.Type()) {
+				r.Bad("R11", fnID(fn)+"#message-list-cut", P.Pos(instrPos(in)), "the message list of the sign doc is cut with a slice expression: the messages outside the cut are not part of the EIP-712 types and message, so they are not hashed — but the transaction still executes them")
+			}
+		})
+		res := fn.Signature.Results()
+		for i := 0; i < res.Len(); i++ {
+			if !isMsgList(res.At(i).Type()) {
+				continue
+			}
+			nF++
+			idx := i
+			okAll, nRet := true, 0
+			eachInstr(fn, func(in ssa.Instruction) {
+				ret, ok := in.(*ssa.Return)
+				if !ok || classifyExit(ret) == ExitFailure {
+					return
+				}
+				nRet++
+				c, isC := stripValue(retOperands(ret)[idx]).(*ssa.Call)
+				if !isC || callInfo(c).Name != "Array" {
+					okAll = false
+				}
+			})
+			r.Check(okAll && nRet > 0, "R11", fnID(fn)+"#returns-whole-array", P.Pos(fnPos(fn)), "every success exit returns Result.Array() itself",
+				"a function that hands out the sign doc's message list returns something other than the JSON array's full element list")
+		}
+		for _, h := range fn.Blocks {
+			if !isLoopHeader(h) {
+				continue
+			}
+			body := loopBody(h)
+			elems := map[ssa.Value]bool{}
+			for b := range body {
+				for _, in := range b.Instrs {
+					if ia, ok := in.(*ssa.IndexAddr); ok && isMsgList(ia.X.Type()) {
+						if _, isConst := ia.Index.(*ssa.Const); !isConst { // x[0] of some array field is not an iteration
+							elems[ia] = true
+						}
+					}
+				}
+			}
+			if len(elems) == 0 {
+				continue
+			}
+			nL++
+			usesElem := func(in ssa.Instruction) bool {
+				c, ok := in.(ssa.CallInstruction)
+				if !ok || c.Common().StaticCallee() == nil {
+					return false
+				}
+				for _, a := range c.Common().Args {
+					hit := false
+					backSlice(a).Any(func(v ssa.Value) bool {
+						if elems[v] {
+							hit = true
+						}
+						return hit
+					})
+					if hit {
+						return true
+					}
+				}
+				return false
+			}
+			var w []ssa.Instruction
+			for _, sc := range h.Succs {
+				if body[sc] && sc != h {
+					if p := (PathQuery{Fn: fn, StartBlock: sc, Block: usesElem, Target: func(in ssa.Instruction) bool { return in == h.Instrs[0] }}).Search(); p != nil {
+						w = p
+					}
+				}
+			}
+			early := ""
+			for b := range body {
+				if b == h {
+					continue
+				}
+				for _, sc := range b.Succs {
+					if body[sc] {
+						continue
+					}
+					if p := (PathQuery{Fn: fn, StartBlock: sc, Target: isSuccessExit}).Search(); p != nil {
+						early = P.Pos(instrPos(b.Instrs[len(b.Instrs)-1]))
+					}
+				}
+			}
+			r.Check(w == nil && early == "", "R11", fmt.Sprintf("%s#loop@%s/every-message", fnID(fn), h.Comment), P.Pos(instrPos(h.Instrs[0])), "every message is handed on; the loop is left early only with an error",
+				"the loop over the sign doc's messages can skip a message or stop early with success (left at "+early+"): that message is executed but not covered by the typed-data hash", P.witness(w)...)
+		}
+	}
+	r.Floor("R11", "functions returning the sign doc's message list", nF, 1)
+	r.Floor("R11", "loops over the sign doc's message list", nL, 1)
 }
 
 func stripCall(v ssa.Value) ssa.Value {
